@@ -6,6 +6,7 @@ package rpc
 // outcomes printed in the canonical form the model prints.  Serves C02 (decode side), C04, C05.
 
 import (
+	"crypto/sha1"
 	"errors"
 	"fmt"
 	"io"
@@ -259,7 +260,11 @@ func vInts(s string) []int {
 type vNullLog struct{ LogInterface }
 
 // vRunDecode runs the frame reader over one scripted stream.
+// vErrTexts: the exact text of the error each NextFrame returned (hashed), for the chunking-independence predicate
+var vErrTexts []string
+
 func vRunDecode(c vCase) (outs []string, consumed []string, maxAsk int) {
+	vErrTexts = nil
 	max, _ := strconv.ParseInt(c.get("max"), 10, 32)
 	if max == 0 {
 		max = 1 << 20
@@ -273,6 +278,12 @@ func vRunDecode(c vCase) (outs []string, consumed []string, maxAsk int) {
 		msg, err := p.NextFrame()
 		o := vOutcome(msg, err, results)
 		outs = append(outs, o)
+		if err != nil {
+			h := sha1.Sum([]byte(err.Error()))
+			vErrTexts = append(vErrTexts, vHex(h[:6]))
+		} else {
+			vErrTexts = append(vErrTexts, "-")
+		}
 		consumed = append(consumed, strconv.FormatInt(atomic.LoadInt64(&cr.delivered)-int64(p.reader.reader.Buffered()), 10))
 		// refresh the result slots so that a later response for the same seq starts clean
 		if rm, ok := msg.(*rpcResponseMessage); ok && rm.c != nil && err == nil {
@@ -323,7 +334,7 @@ func vDecodeCases(t *testing.T) {
 			runtime.ReadMemStats(&m0)
 			outs, consumed, maxAsk := vRunDecode(c)
 			runtime.ReadMemStats(&m1)
-			out.printf("dec %s outs=%s consumed=%s maxask=%d alloc=%d inflated=%s", c.id, strings.Join(outs, "|"), strings.Join(consumed, ","), maxAsk, m1.TotalAlloc-m0.TotalAlloc, vInflateStream(vUnhex(c.get("stream"))))
+			out.printf("dec %s outs=%s consumed=%s maxask=%d alloc=%d inflated=%s errh=%s", c.id, strings.Join(outs, "|"), strings.Join(consumed, ","), maxAsk, m1.TotalAlloc-m0.TotalAlloc, vInflateStream(vUnhex(c.get("stream"))), strings.Join(vErrTexts, ","))
 		})
 	}
 }
